@@ -251,6 +251,10 @@ def main():
     os.makedirs(os.path.join(VERIF, "evidence", "replay"), exist_ok=True)
     log = []
     problems = []       # things that make the property "no longer shown to hold"
+    if a.replay is None:
+        for f in os.listdir(os.path.join(VERIF, "evidence", "replay")):
+            if f.startswith(pid + "-"):
+                os.remove(os.path.join(VERIF, "evidence", "replay", f))
     # 1. regeneration
     rc, gout, gstat = step_gen()
     broken_sites = {k: v for k, v in gstat.items() if v != "ok"}
